@@ -5,8 +5,8 @@ from runner import Inv, Merged
 ID = "C11"
 MANIFEST = (
     "exploration",
-    "runtime monitor: synchronous pre/post callbacks on every split / merge / swap (hook H5) checked against conservation, midpoint, label-inheritance and selectivity rules, plus per-pass state comparison and an operation / CPU budget in forked children",
-    "Held on every operation and pass observed in the run (quick: >1e5 operations in >300 histories; thorough: tens of thousands of histories): per operation - total node momentum conserved to 1e-12, new node at the midpoint of an edge present in the edge set, endpoints of a split unmoved, the four sub-triangles carry the parent's label, merged node carries the sum of momenta, splits only of edges longer than l_max and merges only of edges shorter than l_min inside a pass; per pass - surviving nodes bit-identical, momentum conserved, split-only passes leave own volume and area unchanged, meshes the oracle classifies as conforming see zero operations and an identical state, operation count within 100(E+sum(len/l_max)^2)+1e4; a pass that exceeds the CPU budget (120 s, >100x the slowest legitimate case) counts as 'does not return'. Exploration is the right level: the rules are exact per event, the unbounded part is the space of meshes and node states.",
+    "runtime monitor: synchronous pre/post callbacks on every split / merge / swap (hook H5) checked against conservation, midpoint, label-inheritance and selectivity rules, plus per-pass state comparison and an operation / CPU budget in forked children; integer-lattice meshes whose edges lie exactly on the bounds of the length band, judged with exact arithmetic",
+    "Held on every operation and pass observed in the run (quick: >1e5 operations in >300 histories; thorough: tens of thousands of histories): per operation - total node momentum conserved to 1e-12, new node at the midpoint of an edge present in the edge set, endpoints of a split unmoved, the four sub-triangles carry the parent's label, merged node carries the sum of momenta, splits only of edges longer than l_max and merges only of edges shorter than l_min inside a pass; per pass - surviving nodes bit-identical, momentum conserved, split-only passes leave own volume and area unchanged, meshes the oracle classifies as conforming see zero operations and an identical state, operation count within 100(E+sum(len/l_max)^2)+1e4; edges exactly as long as l_min or l_max (quick: 4 000 lattice meshes, > 8 000 such edges each side) are neither split nor collapsed; a pass that exceeds the CPU budget (120 s, >100x the slowest legitimate case) counts as 'does not return'. Exploration is the right level: the rules are exact per event, the unbounded part is the space of meshes and node states.",
     "Same generator limits as C01 (cells thicker than 2*l_max, realistic normal staleness); hangs are decided against a CPU budget, not proved impossible; crashes other than time-outs are inconclusive (owned by C10).",
     "DESIGN.md section 3, C11",
 )
